@@ -32,6 +32,18 @@ func (s *Service) scheduleProposals(ctx context.Context,
 	validatorIndices []phase0.ValidatorIndex,
 	notCurrentSlot bool,
 ) {
+	s.scheduleProposalsWithFilter(ctx, epoch, validatorIndices, func(phase0.Slot) bool { return notCurrentSlot })
+}
+
+// scheduleProposalsWithFilter schedules proposals for the given epoch and validator indices.
+// skipCurrentSlot is asked, once the duties have been obtained, whether the slot then in progress
+// is to be left alone; obtaining the duties takes time, so that slot need not be the one that was
+// in progress when the request was made.
+func (s *Service) scheduleProposalsWithFilter(ctx context.Context,
+	epoch phase0.Epoch,
+	validatorIndices []phase0.ValidatorIndex,
+	skipCurrentSlot func(phase0.Slot) bool,
+) {
 	if len(validatorIndices) == 0 {
 		// Nothing to do.
 		return
@@ -77,7 +89,7 @@ func (s *Service) scheduleProposals(ctx context.Context,
 				Msg("Beacon block proposal for a past slot; not scheduling")
 			continue
 		}
-		if duty.Slot() == currentSlot && notCurrentSlot {
+		if duty.Slot() == currentSlot && skipCurrentSlot(currentSlot) {
 			s.log.Debug().
 				Uint64("proposal_slot", uint64(duty.Slot())).
 				Uint64("current_slot", uint64(currentSlot)).
